@@ -83,11 +83,21 @@ def compare(rec, a, b, ct=1.0, rtol=1e-12, label="", node_map=None, mut_map=None
     devs["mut_time"] = common.rel_err(a.mut_times * ct, mapm(b.mut_times))
     if a.node_mn is not None and b.node_mn is not None:
         devs["node_mn"] = common.rel_err(a.node_mn * ct, mapn(b.node_mn))
+    def vr_dev(va, vb, ma):
+        # a variance that has underflowed into the subnormal range (a point-mass posterior)
+        # carries no relative precision: values below 1e-250 * mean^2 are compared as zero
+        va, vb = np.array(va, dtype=float), np.array(vb, dtype=float)
+        floor = 1e-250 * np.square(np.where(np.isfinite(ma), ma, 0.0))
+        tiny = (np.abs(va) <= floor) & (np.abs(vb) <= floor)
+        va[tiny] = 0.0
+        vb[tiny] = 0.0
+        return common.rel_err(va, vb)
+
     if a.node_vr is not None and b.node_vr is not None:
-        devs["node_vr"] = common.rel_err(a.node_vr * ct * ct, mapn(b.node_vr))
+        devs["node_vr"] = vr_dev(a.node_vr * ct * ct, mapn(b.node_vr), a.node_mn * ct)
     if a.mut_mn is not None and b.mut_mn is not None:
         devs["mut_mn"] = common.rel_err(a.mut_mn * ct, mapm(b.mut_mn))
-        devs["mut_vr"] = common.rel_err(a.mut_vr * ct * ct, mapm(b.mut_vr))
+        devs["mut_vr"] = vr_dev(a.mut_vr * ct * ct, mapm(b.mut_vr), a.mut_mn * ct)
     for k, v in devs.items():
         rec.maxi(f"dev:{label}:{k}", v if np.isfinite(v) else 1e300)
     return devs
